@@ -9,6 +9,7 @@ import Driver.Addressing
 import Driver.Deadline
 import Driver.TBF
 import Driver.BufSync
+import Driver.Delay
 
 def main (args : List String) : IO UInt32 := do
   match args with
@@ -24,4 +25,5 @@ def main (args : List String) : IO UInt32 := do
   | ["deadline"] => Driver.runComponent Driver.Deadline.comp; return 0
   | ["tbf"] => Driver.runComponent Driver.TBF.comp; return 0
   | ["bufsync"] => Driver.runComponent Driver.BufSync.comp; return 0
+  | ["delay"] => Driver.runComponent Driver.Delay.comp; return 0
   | _ => IO.eprintln "usage: vdrv <component> [args]"; return 2
